@@ -1,8 +1,263 @@
-(* C11 - diagonal operators multiply along the requested axes. *)
-From Coq Require Import ZArith NArith List.
+(* C11 - diagonal operators multiply along the requested axes.
+   "A (broadcast) diagonal operator multiplies each input leaf by the stored values laid along the
+   requested destination axes with NumPy broadcasting semantics, for every legal axis specification
+   (non-negative or negative scalar, explicit tuple in any order, axes extending beyond the leaf rank
+   on the left or right) and for pytrees whose leaves have different ranks.  The strict diagonal
+   variant rejects any specification that would change a leaf's shape, scalar or pytree-valued values
+   and duplicated or incompatible axes raise at construction, and the result never depends on
+   anything but the values, the axes and the input."
+   Statements only; every proof is `exact <lemma>` (Lemmas/DiagonalL.v) over the model
+   Model/Diagonal.v (which reuses the moveaxis / n-d index model of Model/Axes.v).
+   Pytrees are lists of leaves; K is an arbitrary carrier with a product kmul (no ring law is needed
+   for the element formula; the dense-matrix and inverse statements name the laws they use). *)
+From Coq Require Import ZArith NArith QArith List.
 From Furax Require Import Model.Axes Lemmas.AxesL Model.Diagonal Lemmas.DiagonalL.
 Import ListNotations.
+Close Scope Q_scope.
+Close Scope Z_scope.
+Open Scope nat_scope.
 
-Theorem scalar_axes_len : forall nd a, length (scalar_axes nd a) = nd.
-Proof. exact scalar_axes_length. Qed.
-Print Assumptions scalar_axes_len.
+(* ---------------------------------------------------------------------------------------------- *)
+(* axis_destination: the two scalar conventions are the explicit tuples
+   a >= 0 -> (a, a+1, ..., a+nd-1);   a < 0 -> (a-nd+1, ..., a-1, a) *)
+Theorem scalar_axis_forms : forall cls v a ins,
+  Diag_ctor cls v (AInt a) ins =
+  Diag_ctor cls v (ASeq (match v with VLeaf vs => scalar_axes (length vs) a | VTree => [] end)) ins.
+Proof. exact scalar_forms. Qed.
+Print Assumptions scalar_axis_forms.
+
+Theorem scalar_axis_tuple : forall nd a k, k < nd ->
+  length (scalar_axes nd a) = nd /\
+  nth k (scalar_axes nd a) 0%Z =
+  (if (0 <=? a)%Z then a + Z.of_nat k else a - Z.of_nat (nd - 1 - k))%Z.
+Proof. exact (fun nd a k H => conj (scalar_axes_length nd a) (scalar_axes_nth nd a k H)). Qed.
+Print Assumptions scalar_axis_tuple.
+
+(* left / right broadcast dimensions: the least L, R >= 0 with every normalised axis + L in [0, L+r+R) *)
+Theorem broadcast_dims_minimal : forall ax r L R, lr_dims ax r = Ok (L, R) -> ax <> [] /\ lr_spec ax r L R.
+Proof. exact lr_dims_spec. Qed.
+Print Assumptions broadcast_dims_minimal.
+
+(* ---------------------------------------------------------------------------------------------- *)
+(* The element formula, one leaf (every rank, every values shape, every axis tuple of length
+   values.ndim).  With vs = values shape, sh = leaf shape, ax = axes normalised BY THIS LEAF'S RANK,
+   L / R the left / right broadcast dimensions, T = L + R + rank:
+   - the reshaped values have shape dspec: vs[k] at position L + ax_k, 1 elsewhere;
+   - the reshaped leaf, right-aligned, has shape xpad = (1,)*L + sh + (1,)*R;
+   - the two are compatible position by position and the result has their broadcast shape;
+   - y[I] = d[ I[L + ax_k] for k < nd ] * x[ I[L + j] for j < rank ], unit axes being read at index 0. *)
+Theorem diag_elementwise_leaf : forall (K : Type) (k0 : K) (kmul : K -> K -> K) cls (d x : arr K) axes y,
+  length axes = length (ashape d) ->
+  mv_leaf K k0 kmul cls d axes x = Ok y ->
+  let vs := ashape d in
+  let sh := ashape x in
+  let ax := map (norm_axis (length sh)) axes in
+  exists L R,
+    let T := L + R + length sh in
+    let axn := shifted L ax in
+    NoDup ax /\ lr_dims ax (length sh) = Ok (L, R) /\
+    Forall2 compat (dspec vs axn T) (xpad sh L R) /\
+    ashape y = zipw bmax (dspec vs axn T) (xpad sh L R) /\
+    (cls = DStrict -> ashape y = sh) /\
+    wf_arr y /\
+    forall I, in_range (ashape y) I ->
+      get K k0 y I = kmul (get K k0 d (d_index vs axn I)) (get K k0 x (x_index sh L I)).
+Proof. exact mv_leaf_elementwise. Qed.
+Print Assumptions diag_elementwise_leaf.
+
+(* reading of dspec / xpad by axis *)
+Theorem reshaped_shapes_by_axis : forall (vs : shape) (ax : list Z) (sh : shape) (L R : nat),
+  length ax = length vs -> NoDup ax ->
+  (forall a, In a ax -> (0 <= a + Z.of_nat L < Z.of_nat (L + R + length sh))%Z) ->
+  let T := L + R + length sh in
+  let axn := shifted L ax in
+  (forall k, k < length vs -> nth (nth k axn 0) (dspec vs axn T) 0 = nth k vs 0) /\
+  (forall m, m < T -> ~ In m axn -> nth m (dspec vs axn T) 0 = 1) /\
+  (forall m, m < T -> nth m (xpad sh L R) 0 = axis_size sh (Z.of_nat m - Z.of_nat L)).
+Proof.
+  exact (fun vs ax sh L R H1 H2 H3 =>
+    conj (dspec_at_axis vs ax (length sh) L R H1 H2 H3)
+         (conj (dspec_off_axis vs ax (length sh) L R H1)
+               (fun m Hm => xpad_nth sh L R m Hm))).
+Qed.
+Print Assumptions reshaped_shapes_by_axis.
+
+(* The same for an accepted operator on a whole pytree: mv is defined on every input of the in
+   structure, its shapes are out_structure(), and every leaf obeys the element formula with ITS OWN
+   rank in the normalisation (leaf_spec is the conclusion of diag_elementwise_leaf). *)
+Theorem diag_elementwise : forall (K : Type) (k0 : K) (kmul : K -> K -> K) cls v a ins op (d : arr K)
+  (x : list (arr K)),
+  Diag_ctor cls v a ins = Ok op -> length (d_axes op) = length (d_vshape op) ->
+  ashape d = d_vshape op -> map ashape x = ins ->
+  exists y, diag_mv K k0 kmul op d x = Ok y /\ d_out_structure op = Ok (map ashape y) /\
+            Forall2 (leaf_spec K k0 kmul cls d (d_axes op)) x y.
+Proof. exact diag_mv_elementwise. Qed.
+Print Assumptions diag_elementwise.
+
+(* leaves of different rank do not interact: a pytree is processed leaf by leaf *)
+Theorem mixed_rank_leaves : forall (K : Type) (k0 : K) (kmul : K -> K -> K) op (d : arr K) x x',
+  diag_mv K k0 kmul op d (x ++ x') =
+  bind (diag_mv K k0 kmul op d x) (fun y => bind (diag_mv K k0 kmul op d x') (fun y' => Ok (y ++ y'))).
+Proof. exact diag_mv_app. Qed.
+Print Assumptions mixed_rank_leaves.
+
+(* ---------------------------------------------------------------------------------------------- *)
+(* construction: exact characterisation.  A specification is legal for a leaf iff the normalised axes
+   are distinct and every values axis is compatible (equal, or one of them 1) with the leaf axis it
+   lands on - an axis outside the leaf lands on a new unit axis; for the strict class the axis must lie
+   inside the leaf and the values axis must be 1 or the leaf's size (see leaf_ok). *)
+Theorem ctor_accepts_legal : forall cls vs a ins,
+  let axes := axis_tuple (length vs) a in
+  length axes = length vs ->
+  (Diag_ctor cls (VLeaf vs) a ins = Ok (mkDiag cls vs axes ins) <-> legal_spec cls vs axes ins).
+Proof. exact ctor_iff. Qed.
+Print Assumptions ctor_accepts_legal.
+
+(* pytree-valued values, rank-0 values, and every specification illegal for some leaf (duplicates after
+   normalisation, incompatible sizes, strict: any shape change) raise ValueError at construction *)
+Theorem ctor_rejects : forall cls v a ins,
+  match v with
+  | VTree => True
+  | VLeaf vs => length (axis_tuple (length vs) a) = length vs /\
+                ~ legal_spec cls vs (axis_tuple (length vs) a) ins
+  end ->
+  Diag_ctor cls v a ins = Err ValueError.
+Proof. exact ctor_rejects_l. Qed.
+Print Assumptions ctor_rejects.
+
+Theorem ctor_result : forall cls v a ins op, Diag_ctor cls v a ins = Ok op ->
+  exists vs, v = VLeaf vs /\ vs <> [] /\ op = mkDiag cls vs (axis_tuple (length vs) a) ins /\
+             exists outs, d_out_structure op = Ok outs.
+Proof. exact ctor_ok_fields. Qed.
+Print Assumptions ctor_result.
+
+Theorem leaf_legal_iff : forall cls vs axes sh, length axes = length vs -> vs <> [] ->
+  ((exists pl, leaf_plan cls vs axes sh = Ok pl) <-> leaf_ok cls vs axes sh).
+Proof. exact leaf_plan_iff. Qed.
+Print Assumptions leaf_legal_iff.
+
+(* the strict class accepts exactly the specifications the broadcast class accepts AND that leave
+   every leaf's shape unchanged (for any values / axis argument whatsoever) *)
+Theorem strict_preserves_shape : forall v a ins,
+  (exists op, Diag_ctor DStrict v a ins = Ok op) <->
+  (exists op', Diag_ctor DBroadcast v a ins = Ok op' /\ d_out_structure op' = Ok ins).
+Proof. exact strict_iff_shape_preserving. Qed.
+Print Assumptions strict_preserves_shape.
+
+Theorem strict_out_is_in : forall v a ins op,
+  Diag_ctor DStrict v a ins = Ok op -> d_out_structure op = Ok ins.
+Proof. exact strict_out_structure. Qed.
+Print Assumptions strict_out_is_in.
+
+(* ---------------------------------------------------------------------------------------------- *)
+(* DiagonalOperator.as_matrix() is the dense matrix of mv: column j = flattened image of the j-th basis
+   vector (over any carrier where v*0 = 0 and v*1 = v) *)
+Theorem diag_as_matrix : forall (K : Type) (k0 k1 : K) (kmul : K -> K -> K),
+  (forall v, kmul v k0 = k0) -> (forall v, kmul v k1 = v) ->
+  forall op (d : arr K) m, d_cls op = DStrict ->
+  diag_as_matrix K k0 op d = Ok m ->
+  columns K k0 k1 (diag_mv K k0 kmul op d) (d_in op) = Ok m.
+Proof. exact diag_as_matrix_l. Qed.
+Print Assumptions diag_as_matrix.
+
+(* DiagonalInverseOperator: constructible whenever the operator was; its values are
+   where(d != 0, 1/d, 0) entry by entry, and pinv(v) * v is 0 on zeros and 1 elsewhere *)
+Theorem inverse_constructible : forall v a ins op,
+  Diag_ctor DStrict v a ins = Ok op -> Diag_inverse_ctor op = Ok op.
+Proof. exact inverse_ctor_same. Qed.
+Print Assumptions inverse_constructible.
+
+Theorem inverse_values_spec : forall (K : Type) (k0 : K) (kis0 : K -> bool) (kinv : K -> K) d J,
+  in_range (ashape d) J -> wf_arr d ->
+  get K k0 (inverse_values K k0 kis0 kinv d) J = pinv K k0 kis0 kinv (get K k0 d J).
+Proof. exact inverse_values_get. Qed.
+Print Assumptions inverse_values_spec.
+
+Theorem pinv_is_pseudo_inverse : forall (K : Type) (k0 k1 : K) (kmul : K -> K -> K) (kis0 : K -> bool)
+  (kinv : K -> K),
+  (forall v, kis0 v = true <-> v = k0) -> (forall v, kmul k0 v = k0) ->
+  (forall v, v <> k0 -> kmul (kinv v) v = k1) ->
+  forall v, kmul (pinv K k0 kis0 kinv v) v = if kis0 v then k0 else k1.
+Proof. exact pinv_mul. Qed.
+Print Assumptions pinv_is_pseudo_inverse.
+
+(* "the result never depends on anything but the values, the axes and the input": trivial in a pure
+   model (mv is a Gallina function of (op, d, x)); the corresponding check on the Python side is the
+   repeated / freshly-built / jitted evaluation of the harness *)
+Theorem deterministic : forall (K : Type) (k0 : K) (kmul : K -> K -> K) op (d : arr K) x y y',
+  diag_mv K k0 kmul op d x = Ok y -> diag_mv K k0 kmul op d x = Ok y' -> y = y'.
+Proof. exact diag_mv_deterministic. Qed.
+Print Assumptions deterministic.
+
+(* ---------------------------------------------------------------------------------------------- *)
+(* non-vacuity and boundary examples (computed) *)
+Open Scope Z_scope.
+
+(* the docstring examples of BroadcastDiagonalOperator *)
+Example docstring_examples :
+  obs_diag DBroadcast (VLeaf [2; 3]%nat) [1; 1; 1; 2; 1; 0] (AInt (-1)) [[3]%nat] [[1; 2; 3]] =
+    Ok ([-2; -1], Ok [[2; 3]%nat], Ok [([2; 3]%nat, [1; 2; 3; 2; 2; 0])], Ok []) /\
+  obs_diag DBroadcast (VLeaf [2; 3]%nat) [2; 3; 1; 1; 0; 1] (AInt 0) [[2]%nat] [[1; 2]] =
+    Ok ([0; 1], Ok [[2; 3]%nat], Ok [([2; 3]%nat, [2; 3; 1; 2; 0; 2])], Ok []) /\
+  obs_diag DStrict (VLeaf [2]%nat) [2; 1] (AInt 0) [[2; 3]%nat] [[0; 1; 2; 2; 3; 4]] =
+    Ok ([0], Ok [[2; 3]%nat], Ok [([2; 3]%nat, [0; 2; 4; 2; 3; 4])], Ok [2; 2; 2; 1; 1; 1]).
+Proof. repeat split; reflexivity. Qed.
+
+(* the hypotheses of ctor_accepts_legal are satisfiable: a tuple in reversed order with a negative
+   entry, on a pytree with leaves of ranks 2 and 3 (the axes mean different positions on each) *)
+Example legal_spec_example :
+  legal_spec DBroadcast [3; 2]%nat [-1; 0] [[2; 3]%nat; [2; 5; 3]%nat] /\
+  Diag_ctor DBroadcast (VLeaf [3; 2]%nat) (ASeq [-1; 0]) [[2; 3]%nat; [2; 5; 3]%nat] =
+    Ok (mkDiag DBroadcast [3; 2]%nat [-1; 0] [[2; 3]%nat; [2; 5; 3]%nat]).
+Proof.
+  assert (H : Diag_ctor DBroadcast (VLeaf [3; 2]%nat) (ASeq [-1; 0]) [[2; 3]%nat; [2; 5; 3]%nat] =
+              Ok (mkDiag DBroadcast [3; 2]%nat [-1; 0] [[2; 3]%nat; [2; 5; 3]%nat])) by reflexivity.
+  split; [|exact H]. apply (ctor_iff DBroadcast [3; 2]%nat (ASeq [-1; 0])); [reflexivity | exact H].
+Qed.
+
+(* mixed ranks: axis_destination=0 with gains of shape (3,) on {'tod': (3, 4), 'ground': (3,)} *)
+Example mixed_rank_example :
+  obs_diag DStrict (VLeaf [3]%nat) [2; 3; 5] (AInt 0) [[3; 2]%nat; [3]%nat] [[1; 1; 1; 1; 1; 1]; [1; 1; 1]] =
+    Ok ([0], Ok [[3; 2]%nat; [3]%nat], Ok [([3; 2]%nat, [2; 2; 3; 3; 5; 5]); ([3]%nat, [2; 3; 5])],
+        Ok [2; 2; 3; 3; 5; 5; 2; 3; 5]) /\
+  (* the negative axis -1 is the second axis of the first leaf and the only axis of the second *)
+  obs_diag DStrict (VLeaf [2]%nat) [2; 3] (AInt (-1)) [[3; 2]%nat; [2]%nat] [[1; 1; 1; 1; 1; 1]; [1; 1]] =
+    Ok ([-1], Ok [[3; 2]%nat; [2]%nat], Ok [([3; 2]%nat, [2; 3; 2; 3; 2; 3]); ([2]%nat, [2; 3])],
+        Ok [2; 3; 2; 3; 2; 3; 2; 3]).
+Proof. split; reflexivity. Qed.
+
+(* axes beyond the leaf rank on the left (-3 on rank 1) and on the right (2 on rank 1) *)
+Example beyond_rank_examples :
+  obs_diag DBroadcast (VLeaf [2]%nat) [1; 2] (AInt (-3)) [[3]%nat] [[5; 6; 7]] =
+    Ok ([-3], Ok [[2; 1; 3]%nat], Ok [([2; 1; 3]%nat, [5; 6; 7; 10; 12; 14])], Ok []) /\
+  obs_diag DBroadcast (VLeaf [2]%nat) [1; 2] (AInt 2) [[3]%nat] [[5; 6; 7]] =
+    Ok ([2], Ok [[3; 1; 2]%nat], Ok [([3; 1; 2]%nat, [5; 10; 6; 12; 7; 14])], Ok []).
+Proof. split; reflexivity. Qed.
+
+(* rejections: duplicated after normalisation on the rank-1 leaf only (the test of the repository),
+   incompatible sizes, shape change under the strict class, scalar and pytree values *)
+Example rejection_examples :
+  Diag_ctor DBroadcast (VLeaf [3; 3]%nat) (ASeq [0; -1]) [[3; 3]%nat; [3]%nat] = Err ValueError /\
+  Diag_ctor DBroadcast (VLeaf [3; 3]%nat) (ASeq [0; -1]) [[3; 3]%nat] =
+    Ok (mkDiag DBroadcast [3; 3]%nat [0; -1] [[3; 3]%nat]) /\
+  Diag_ctor DBroadcast (VLeaf [2]%nat) (AInt (-1)) [[3]%nat] = Err ValueError /\
+  Diag_ctor DStrict (VLeaf [2; 3]%nat) (AInt (-1)) [[3]%nat] = Err ValueError /\
+  Diag_ctor DBroadcast (VLeaf [2; 3]%nat) (AInt (-1)) [[3]%nat] =
+    Ok (mkDiag DBroadcast [2; 3]%nat [-2; -1] [[3]%nat]) /\
+  Diag_ctor DBroadcast (VLeaf []) (AInt (-1)) [[3]%nat] = Err ValueError /\
+  Diag_ctor DBroadcast VTree (AInt (-1)) [[3]%nat] = Err ValueError.
+Proof. repeat split; reflexivity. Qed.
+
+(* boundary (outside the documented "as many axes as dimensions"): a tuple shorter than values.ndim is
+   not rejected as such; the remaining value axes keep their order (jnp.moveaxis) *)
+Example short_tuple_boundary :
+  Diag_ctor DStrict (VLeaf [2; 3]%nat) (ASeq [0]) [[2; 3]%nat] = Ok (mkDiag DStrict [2; 3]%nat [0] [[2; 3]%nat]) /\
+  Diag_ctor DBroadcast (VLeaf [2; 3]%nat) (ASeq []) [[2; 3]%nat] = Err ValueError.
+Proof. split; reflexivity. Qed.
+
+(* the pseudo-inverse over Q: values (0, 2, 1/2) -> (0, 1/2, 2) *)
+Example inverse_example :
+  obs_inverse [3]%nat [0 # 1; 2 # 1; 1 # 2]%Q (AInt 0) [[3]%nat] [[1 # 1; 1 # 1; 1 # 1]%Q] =
+    Ok ([0 # 1; 1 # 2; 2 # 1]%Q, Ok [([3]%nat, [0 # 1; 1 # 2; 2 # 1]%Q)],
+        Ok [([3]%nat, [0 # 1; 1 # 1; 1 # 1]%Q)], Ok [0 # 1; 1 # 2; 2 # 1]%Q).
+Proof. reflexivity. Qed.
